@@ -36,10 +36,59 @@ const hookSrc = `// Package verifhook exists only in the verification overlay: i
 package verifhook
 
 import (
+	"context"
 	"fmt"
 	"reflect"
 	"sort"
+	"time"
 )
+
+// pick asks the explorer for one of two answers of the environment at a wall-clock site (0 = default).
+func pick(site string) int {
+	if Choose == nil {
+		return 0
+	}
+	if perm := Choose("clock:"+site, 2); len(perm) == 2 && perm[0] == 1 {
+		return 1
+	}
+	return 0
+}
+
+var clockBase = time.Unix(1_700_000_000, 0)
+
+// WithTimeout / WithDeadline: the deadline either never fires (default) or has already passed.
+func WithTimeout(site string, parent context.Context, d time.Duration) (context.Context, context.CancelFunc) {
+	if pick(site) == 1 {
+		return context.WithDeadline(parent, time.Unix(1, 0))
+	}
+	return context.WithCancel(parent)
+}
+
+func WithDeadline(site string, parent context.Context, t time.Time) (context.Context, context.CancelFunc) {
+	return WithTimeout(site, parent, 0)
+}
+
+// Now / Since / Until: the wall clock reads a fixed instant (default) or one hour later.
+func Now(site string) time.Time {
+	if pick(site) == 1 {
+		return clockBase.Add(time.Hour)
+	}
+	return clockBase
+}
+
+func Since(site string, t time.Time) time.Duration {
+	if pick(site) == 1 {
+		return time.Hour
+	}
+	return 0
+}
+
+func Until(site string, t time.Time) time.Duration {
+	if pick(site) == 1 {
+		return -time.Hour
+	}
+	return time.Hour
+}
 
 // Choose returns, for a map with n keys (presented in canonical sorted order) at the given site,
 // the permutation to iterate in; nil means canonical order. It is installed by the harness and
@@ -83,6 +132,7 @@ type siteInfo struct {
 	File string `json:"file"`
 	Line int    `json:"line"`
 	Key  string `json:"key_type"`
+	Kind string `json:"kind,omitempty"` // "" = map range, "clock" = wall clock / timer / randomness / goroutine
 	Done bool   `json:"instrumented"`
 	Why  string `json:"reason,omitempty"`
 }
@@ -123,6 +173,40 @@ func main() {
 				return other.Name()
 			}
 			astutil.Apply(f, nil, func(c *astutil.Cursor) bool {
+				// wall clock, timers, randomness, goroutines: consensus code must not depend on them. The calls with a
+				// two-valued model become choice points, the others are reported as uninstrumented.
+				if gs, ok := c.Node().(*ast.GoStmt); ok {
+					pos := p.Fset.Position(gs.Pos())
+					sites = append(sites, siteInfo{File: pos.Filename, Line: pos.Line, Key: "go statement", Kind: "clock", Why: "goroutine started in module code"})
+					return true
+				}
+				if call, ok := c.Node().(*ast.CallExpr); ok {
+					if sel, ok := call.Fun.(*ast.SelectorExpr); ok {
+						if fn, ok := p.TypesInfo.Uses[sel.Sel].(*types.Func); ok && fn.Pkg() != nil {
+							pos := p.Fset.Position(call.Pos())
+							site := fmt.Sprintf("%s:%d", filepath.Base(pos.Filename), pos.Line)
+							full := fn.Pkg().Path() + "." + fn.Name()
+							switch full {
+							case "context.WithTimeout", "context.WithDeadline", "time.Now", "time.Since", "time.Until":
+								if sig, ok := fn.Type().(*types.Signature); ok && sig.Recv() == nil {
+									call.Fun = &ast.SelectorExpr{X: ast.NewIdent("verifhook"), Sel: ast.NewIdent(fn.Name())}
+									call.Args = append([]ast.Expr{&ast.BasicLit{Kind: token.STRING, Value: fmt.Sprintf("%q", site)}}, call.Args...)
+									sites = append(sites, siteInfo{File: pos.Filename, Line: pos.Line, Key: full, Kind: "clock", Done: true})
+									changed = true
+								}
+							case "time.After", "time.Tick", "time.NewTimer", "time.NewTicker", "time.AfterFunc", "time.Sleep", "crypto/rand.Read", "crypto/rand.Int":
+								sites = append(sites, siteInfo{File: pos.Filename, Line: pos.Line, Key: full, Kind: "clock", Why: "timer / randomness without a two-valued model"})
+							default:
+								if fn.Pkg().Path() == "math/rand" {
+									if sig, ok := fn.Type().(*types.Signature); ok && sig.Recv() == nil {
+										sites = append(sites, siteInfo{File: pos.Filename, Line: pos.Line, Key: full, Kind: "clock", Why: "global pseudo-random source"})
+									}
+								}
+							}
+						}
+					}
+					return true
+				}
 				rs, ok := c.Node().(*ast.RangeStmt)
 				if !ok {
 					return true
@@ -180,7 +264,7 @@ func main() {
 				}
 				body := &ast.BlockStmt{List: append(pre, rs.Body.List...)}
 				repl := &ast.RangeStmt{Key: ast.NewIdent("_"), Value: ast.NewIdent("__vk"), Tok: token.DEFINE,
-					X: &ast.CallExpr{Fun: &ast.SelectorExpr{X: ast.NewIdent("verifhook"), Sel: ast.NewIdent("Order")}, Args: []ast.Expr{&ast.BasicLit{Kind: token.STRING, Value: fmt.Sprintf("%q", site)}, rs.X}},
+					X:    &ast.CallExpr{Fun: &ast.SelectorExpr{X: ast.NewIdent("verifhook"), Sel: ast.NewIdent("Order")}, Args: []ast.Expr{&ast.BasicLit{Kind: token.STRING, Value: fmt.Sprintf("%q", site)}, rs.X}},
 					Body: body}
 				c.Replace(repl)
 				si.Done = true
@@ -192,6 +276,11 @@ func main() {
 				continue
 			}
 			astutil.AddImport(p.Fset, f, hookPath)
+			for _, imp := range []string{"context", "time"} {
+				if !astutil.UsesImport(f, imp) {
+					astutil.DeleteImport(p.Fset, f, imp)
+				}
+			}
 			var buf bytes.Buffer
 			if err := printer.Fprint(&buf, p.Fset, f); err != nil {
 				fmt.Fprintln(os.Stderr, err)
@@ -210,11 +299,16 @@ func main() {
 	os.WriteFile(filepath.Join(*out, "overlay.json"), ob, 0o644)
 	sb, _ := json.MarshalIndent(sites, "", " ")
 	os.WriteFile(filepath.Join(*out, "sites.json"), sb, 0o644)
-	n := 0
+	n, nm, nc := 0, 0, 0
 	for _, s := range sites {
 		if s.Done {
 			n++
 		}
+		if s.Kind == "clock" {
+			nc++
+		} else {
+			nm++
+		}
 	}
-	fmt.Printf("maprw: %d map-range sites, %d instrumented, %d files rewritten\n", len(sites), n, len(overlay)-1)
+	fmt.Printf("maprw: %d map-range sites, %d wall-clock/timer/randomness/goroutine sites, %d instrumented, %d files rewritten\n", nm, nc, n, len(overlay)-1)
 }
